@@ -19,6 +19,7 @@ import (
 // buffer-full exactly where the model does.
 
 type readerCase struct {
+	raw      string
 	B        int             `json:"B"`
 	Retry    int             `json:"Retry"`
 	N        int             `json:"N"`
@@ -321,6 +322,7 @@ func init() {
 				if err := json.Unmarshal(js, &rc); err != nil {
 					return err
 				}
+				rc.raw = string(js)
 				cases = append(cases, rc)
 			}
 			return nil
@@ -328,6 +330,7 @@ func init() {
 		if err != nil {
 			return err
 		}
+		sortByKey(len(cases), func(i int) string { return cases[i].raw }, func(i, j int) { cases[i], cases[j] = cases[j], cases[i] })
 		if len(cases) == 0 {
 			res.infra("no cases")
 			return res.write(*c.out)
